@@ -35,6 +35,10 @@ VARIANTS = ["rel"]
 
 # the genuine defect of the unchanged tree (see notes/C03.md): delete_largest reads its threshold at index `count`
 FP_DELETE_LARGEST = "bundle_t::delete_largest threshold index (size reaches capacity, heap overflow)"
+# second genuine defect (known finding): a far curve-search trial point (|f| ~ 2^56) rounds the null-step linearisation error by
+# ulp(f) >> tolerance; the harness prints such certificate / converged-not-optimal failures as KFAIL (narrow rule, see the harness)
+FP_FAR_TRIAL = "C03-false-convergence-by-cancellation-at-far-trial-point"
+DRIVER_PREFIXES = ("B ", "E1 ", "D ", "CS ", "ELL ")
 
 
 def _build_driver():
@@ -45,7 +49,8 @@ def _build_driver():
     model = os.path.join(vlib.COQ, "extracted", "c03_model.ml")
     driver = os.path.join(vlib.ROOT, "ocaml", "c03_driver.ml")
     with vlib.Lock("ocaml-c03_driver"):
-        srcs = [model, model + "i", driver]
+        model_e = os.path.join(vlib.COQ, "extracted", "c03e_model.ml")
+        srcs = [model, model + "i", model_e, model_e + "i", driver]
         for s in srcs:
             if not os.path.exists(s):
                 raise vlib.CheckError("missing %s (extraction failed?)" % s)
@@ -53,12 +58,12 @@ def _build_driver():
             return exe
         bd = os.path.join(odir, "c03_driver.build")
         vlib.sh("rm -rf %s && mkdir -p %s" % (shlex.quote(bd), shlex.quote(bd)))
-        for s in (model, model + "i"):
+        for s in (model, model + "i", model_e, model_e + "i"):
             vlib.sh("cp %s %s/" % (shlex.quote(s), shlex.quote(bd)))
         with open(os.path.join(bd, "driver_main.ml"), "w") as f:
             f.write("open C03_model\n# 1 \"c03_driver.ml\"\n")
             f.write(open(driver).read())
-        cmd = "ocamlfind ocamlopt -O3 -w -a -package zarith -linkpkg c03_model.mli c03_model.ml driver_main.ml -o %s" % shlex.quote(exe)
+        cmd = "ocamlfind ocamlopt -O3 -w -a -package zarith -linkpkg c03_model.mli c03_model.ml c03e_model.mli c03e_model.ml driver_main.ml -o %s" % shlex.quote(exe)
         rc, out = vlib.sh(cmd.replace("-O3 ", ""), cwd=bd, timeout=600)
         if rc != 0:
             raise vlib.CheckError("ocaml build of c03_driver failed:\n%s" % out[-3000:])
@@ -107,8 +112,11 @@ def _replay(path):
     cmd = re.sub(r"^\S+", exe, cmd)
     rc, out = vlib.sh(cmd, timeout=3000)
     drv = _build_driver()
-    rc2, mout = vlib.sh([drv], input="\n".join(l for l in out.split("\n") if l.startswith(("B ", "E1 ", "D ", "CS "))) + "\n", timeout=3000)
-    bad = [l for l in out.split("\n") if l.startswith(("FAIL ", "MIRROR-DIFF"))] + [l for l in mout.split("\n") if l.startswith("MISMATCH")]
+    rc2, mout = vlib.sh([drv], input="\n".join(l for l in out.split("\n") if l.startswith(DRIVER_PREFIXES)) + "\n", timeout=3000)
+    bad = [l for l in out.split("\n") if l.startswith(("FAIL ", "MIRROR-DIFF"))] + [l for l in mout.split("\n") if l.startswith(("MISMATCH", "PROPFAIL"))]
+    known = [l for l in out.split("\n") if l.startswith("KFAIL ")]
+    if known and not bad:
+        print("replay: only the known finding %s:\n%s" % (FP_FAR_TRIAL, "\n".join(l[:600] for l in known[:3])))
     if rc != 0:
         bad.append("harness exit %d: %s" % (rc, out[-400:]))
     print("\n".join(l[:600] for l in bad[:10]) or "replay: no failure")
@@ -129,6 +137,7 @@ def run(tier, replay=None):
     lines = [l for l in out.split("\n") if l]
     done = [l for l in lines if l.startswith("DONE ")]
     impl_fail = [l for l in lines if l.startswith("FAIL ")]
+    kfail = [l for l in lines if l.startswith("KFAIL ")]
     mirror_diff = [l for l in lines if l.startswith("MIRROR-DIFF")]
     hbug = [l for l in lines if l.startswith("HARNESS-BUG")]
     guards = [l for l in lines if " GUARD " in l and l.startswith("B ")]
@@ -159,6 +168,27 @@ def run(tier, replay=None):
                                     "replay_cmd": "%s probe-small" % exe if l in pguards else _replay_cmd(exe, cid, small)},
                     fingerprint="C03-delete-largest-leaves-bundle-full")
     impl_fail += [l for l in plines if l.startswith("FAIL ")]
+    # known finding C03-false-convergence-by-cancellation-at-far-trial-point: directed probe (the case id determines the run) + every
+    # KFAIL of the run (one violation per run id; KFAIL is printed only under the narrow rule ulp(max|f|) * 4 >= eps sqrt(n))
+    frc, fout = vlib.sh([exe, "probe-far"], timeout=600, env={"VERIF_SEED": str(r.seed)})
+    flines = [l for l in fout.split("\n") if l]
+    fdone = [l for l in flines if l.startswith("PROBE-FAR ")]
+    if frc != 0 or not fdone:
+        r.violation("probe-far-crash", {"kind": "the far-trial-point probe crashed", "exit": frc, "tail": [l[:300] for l in flines[-5:]],
+                                        "replay_cmd": "%s probe-far" % exe}, fingerprint="crash")
+    impl_fail += [l for l in flines if l.startswith("FAIL ")]
+    kfail_probe = [l for l in flines if l.startswith("KFAIL ")]
+    seen_k = set()
+    for l in kfail_probe + kfail:
+        cid = l.split()[1]
+        if cid in seen_k:
+            continue
+        seen_k.add(cid)
+        r.violation("far-trial-point-%d" % len(seen_k),
+                    {"kind": "a certificate / converged-not-optimal failure in a run whose largest evaluated |f| has ulp * 4 >= eps*sqrt(n): "
+                             "the null-step linearisation error is rounded by more than the tolerance being certified",
+                     "case": l[:1500], "all_lines_of_the_run": [x[:600] for x in kfail_probe + kfail if x.split()[1] == cid][:4],
+                     "replay_cmd": _replay_cmd(exe, cid, small and l in kfail)}, fingerprint=FP_FAR_TRIAL)
     for l in hbug[:1]:
         r.violation("harness", {"kind": "harness self-check failed (objective not sharp)", "case": l}, no_input=True)
     seen_f, first_f = set(), []
@@ -186,7 +216,7 @@ def run(tier, replay=None):
         if cres["ok"]:
             raise
     if drv:
-        rc2, mout = vlib.sh([drv], input="\n".join(l for l in lines if l.startswith(("B ", "E1 ", "D ", "CS "))) + "\n", timeout=3300)
+        rc2, mout = vlib.sh([drv], input="\n".join(l for l in lines if l.startswith(DRIVER_PREFIXES)) + "\n", timeout=3300)
         for l in mout.split("\n"):
             if l.startswith(("MISMATCH", "PROPFAIL")):
                 mism.append(l)
@@ -207,8 +237,11 @@ def run(tier, replay=None):
             ok_id = bool(re.match(r"^[SMRE]\d+$", cid))
             # a disagreement on the linearisation errors / rows / stopping decisions is a concrete operation on which the
             # implementation leaves the behaviour the theorems are about
-            r.violation("corr-%d" % i, {"kind": "model/implementation disagreement", "case": l[:1500],
-                                        "meaning": "the bundle operation / stopping decision / ellipsoid step of the library differs from the proved model on this input",
+            pf = l.startswith("PROPFAIL")
+            r.violation("corr-%d" % i, {"kind": "the minimiser left the ellipsoid of the real solver (direct oracle, exact arithmetic on the recorded doubles)"
+                                                if pf else "model/implementation disagreement", "case": l[:1500],
+                                        "meaning": ("the invariant of C03_ellipsoid_nd_invariant fails on the implementation's own numbers at this iteration" if pf else
+                                                    "the bundle operation / stopping decision / ellipsoid step of the library differs from the proved model on this input"),
                                         "replay_cmd": _replay_cmd(exe, cid, small) if ok_id else None},
                         no_input=not ok_id)
     vlib.handle_coq_failure(r, cres)
@@ -249,6 +282,14 @@ def run(tier, replay=None):
     cov["solver_runs"] = int(dk.get("runs", 0))
     cov["solver_runs_converged"] = int(dk.get("converged", 0))
     cov["ellipsoid_1d_traces"] = int(dk.get("e1", 0))
+    cov["ellipsoid_update_events"] = int(dk.get("ell_events", 0))
+    cov["ellipsoid_update_events_membership_checked_in_harness"] = int(dk.get("ell_events", 0))
+    cov["ellipsoid_steps_checked"] = int(mk.get("ellipsoid_steps_checked", 0))
+    cov["ellipsoid_membership_checked_exactly"] = int(mk.get("ellipsoid_membership_checked", 0))
+    cov["ellipsoid_membership_worst"] = {"harness_long_double_all_events": dk.get("ell_max_membership"), "driver_exact_sampled": mk.get("ellipsoid_membership_worst")}
+    cov["ellipsoid_steps_ill_conditioned_skipped"] = int(mk.get("amb_elln", 0))
+    cov["known_finding_hits"] = {FP_FAR_TRIAL: len(seen_k), "C03-delete-largest-leaves-bundle-full": len(pguards) + len(guards)}
+    cov["far_trial_point_probe"] = fdone[0] if fdone else None
     cov["histogram"] = hist
     cov["op_histogram"] = dict(ops)
     cov["mismatches"] = len(mism)
@@ -260,7 +301,9 @@ def run(tier, replay=None):
     cov["samples"] = ([l[:400] for l in lines if l.startswith("RUN ")][:3] + [l[:400] for l in lines if l.startswith("B ") and " APP " in l][:2]
                       + [l[:300] for l in lines if l.startswith("E1 ")][:1])
     cov["unproved_clauses_searched"] = [
-        "n-D ellipsoid: the deep-cut update keeps x* inside the ellipsoid (hypothesis of C03_ellipsoid_certificate); converged => f - f* <= 10 eps searched on the real solver",
+        "n-D ellipsoid: the theorems are about exact arithmetic with an exact square root; the real solver's updates are compared with the model "
+        "(1e-9 of the summed terms) and its ellipsoids are searched for the minimiser leaving them (every iteration in long double, sampled "
+        "iterations exactly); converged => f - f* <= 10 eps searched on the real solver",
         "ellipsoid reports converged within 20000 evaluations for n <= 6 (searched)",
         "floating-point rounding of all formulas (compared within 1e-9 of the summed terms)",
         "the interior-point QP answer is in the simplex (measured on every solve: qp_answer_max_simplex_deviation)",
